@@ -8,10 +8,13 @@ fi
 # _CoqProject lists every .v file under coq/ (dependencies are found by coqdep)
 { echo "-Q . QV"; find . -name '*.v' -not -path './.work/*' | sed 's|^\./||' | sort; } > _CoqProject
 coq_makefile -f _CoqProject -o Makefile > /dev/null
-timeout 3000 make -j16 2>&1 | grep -v "^COQC\|^COQDEP\|WARNING conda" || true
+# -k: one file that does not compile must not take the other properties down with it (the check of the property that
+# needs it reports the broken obligation itself: Ctx.check_props rebuilds its own closure and fails closed)
+timeout 3000 make -k -j16 2>&1 | grep -v "^COQC\|^COQDEP\|WARNING conda" || true
 # every listed file must have been built
-for f in $(grep '\.v$' _CoqProject); do test -f "${f}o" || { echo "missing ${f}o" >&2; exit 1; }; done
+missing=0
+for f in $(grep '\.v$' _CoqProject); do test -f "${f}o" || { echo "setup: NOT BUILT ${f}o (the checks that need it will report it)" >&2; missing=$((missing+1)); }; done
 mkdir -p /verif/.cache/numba /verif/.work /verif/replay /verif/evidence
 # networkx (needed by quimb MPO builder paths) from the offline wheelhouse into a private dir; /venv is left untouched
 if [ ! -d /verif/.pydeps/networkx ]; then /venv/bin/pip install -q --no-index --find-links /opt/veriftools/wheels --target /verif/.pydeps networkx 2>&1 | grep -v WARNING || true; fi
-echo setup-ok
+echo "setup-ok (files not built: $missing)"
